@@ -1165,7 +1165,9 @@ fn gen_wscript(rng: &mut Rng, std: bool, intr_eio: bool) -> Vec<WStep> {
             }
         }
     }
-    if std && rng.chance(1, 25) {
+    // Ok(0): legal for std::io::Write and for embedded-io 0.4 ("semantics are the same as
+    // std::io::Write"; its slice writer answers Ok(0) when full); forbidden by embedded-io 0.6
+    if (std || cfg!(feature = "eio04")) && rng.chance(1, 25) {
         let i = rng.usize_below(v.len() + 1);
         v.insert(i, if rng.chance(1, 2) { WStep::Zero } else { WStep::ZeroForever });
     }
